@@ -343,6 +343,23 @@ def rule_T8(tree: Tree) -> RuleResult:
     for cn, want in RFC_TYPES.items():
         r.instances += 1
         r.ob(cls_types.get(cn) == want, Finding("T8", f"{QF}:frame_type:types:{cn}", f"{cn} must be registered for types {sorted(hex(x) for x in want)}, found {sorted(hex(x) for x in cls_types.get(cn, []))}", m.relpath))
+    # the type a frame object reports: a class registered for one code carries it as a class constant equal to that code; a class registered for several codes
+    # takes it from the wire (`self.frame_type = payload[0]`) — a class constant there reports the same type for all of them
+    for cn, want in RFC_TYPES.items():
+        c = tree.cls(QF, cn) if cn in {k.name for k in m.classes.values()} else None
+        if c is None:
+            continue
+        r.instances += 1
+        consts = [try_fold(s2.value) for s2 in c.node.body if isinstance(s2, ast.Assign) and dotted(s2.targets[0]) == "frame_type"]
+        init = c.methods.get("__init__")
+        inst = [src(s2.value) for s2 in body_walk(init.node) if isinstance(s2, ast.Assign) and dotted(s2.targets[0]) == "self.frame_type"] if init else []
+        if len(want) == 1:
+            okt = (consts == [next(iter(want))] and not inst) or (not consts and inst == ["payload[0]"])
+        else:
+            okt = not consts and inst == ["payload[0]"]
+        r.ob(okt, Finding("T8", f"{QF}:{cn}:frame-type-attribute",
+                          f"{cn} is registered for {sorted(hex(x) for x in want)}: its frame_type must be {'that constant' if len(want) == 1 else 'read from the first byte of the frame'}; "
+                          f"found class constant {consts}, instance assignment {inst}", m.line(c.node)))
     extra = sorted(set(cls_types) - set(RFC_TYPES))
     if extra:
         r.notes.append(f"registry classes outside RFC 9000 §19 / RFC 9221 (layout not compared, type codes checked for disjointness only): {extra}")
